@@ -690,7 +690,18 @@ pub fn gen_outage_scenario(property: &str, seed: u64) -> Scenario {
             _ => add(1, 0, 0, 0),
         });
     }
-    let t2 = vec![Op::WaitNodeDown { max: 400 }, Op::NodeUp];
+    let t2 = if r.chance(1, 3) {
+        // the node comes back only for a moment: the second outage starts at one of the first calls after the recovery
+        // (the carrier's own probe, or the call it retries)
+        vec![
+            Op::WaitNodeDown { max: 400 },
+            Op::NodeUpThenDownAfter { rpcs: r.range(1, 3) as u32 },
+            Op::WaitNodeDown { max: 400 },
+            Op::NodeUp,
+        ]
+    } else {
+        vec![Op::WaitNodeDown { max: 400 }, Op::NodeUp]
+    };
     Scenario {
         property: property.to_string(),
         seed,
